@@ -1005,8 +1005,22 @@ const AUTHOR_BYTES: std::ops::Range<usize> = 32..64;
 const KEY_BYTES: std::ops::RangeFrom<usize> = 64..;
 
 /// The identifier of a record.
-#[derive(Clone, Serialize, Deserialize, PartialEq, Eq, PartialOrd, Ord)]
+#[derive(Clone, Serialize, PartialEq, Eq, PartialOrd, Ord)]
 pub struct RecordIdentifier(Bytes);
+
+impl<'de> Deserialize<'de> for RecordIdentifier {
+    fn deserialize<D: serde::Deserializer<'de>>(deserializer: D) -> Result<Self, D::Error> {
+        let bytes = Bytes::deserialize(deserializer)?;
+        // The accessors slice out the namespace and author ids: a shorter identifier
+        // received from a peer must be a decoding error, not a panic later on.
+        if bytes.len() < KEY_BYTES.start {
+            return Err(serde::de::Error::custom(
+                "record identifier is shorter than the namespace and author ids",
+            ));
+        }
+        Ok(Self(bytes))
+    }
+}
 
 impl Default for RecordIdentifier {
     fn default() -> Self {
